@@ -317,6 +317,9 @@ pub fn label(rng: &mut Rng, t: &mut Rose, o: &LabelOpts) {
     let n = t.n_leaves();
     let mut names = unique_names(rng, n, o.fancy_names);
     let mut k = 0usize;
+    // a partially annotated tree is not always "each branch independently": lengths on internal branches only (the crate's own
+    // InternalLengthsLeafNames output), on terminal branches only, or on a minority of the branches are drawn per tree
+    let mixed_pattern = if o.len_mode == LenMode::Mixed { rng.below(10) } else { 9 };
     let mut f = |r: &mut Rose, is_root: bool, _d: usize| {
         if r.kids.is_empty() {
             if o.leaf_names {
@@ -337,7 +340,12 @@ pub fn label(rng: &mut Rng, t: &mut Rose, o: &LabelOpts) {
         let want = match o.len_mode {
             LenMode::None => false,
             LenMode::All => true,
-            LenMode::Mixed => rng.chance(2, 3),
+            LenMode::Mixed => match mixed_pattern {
+                0 => !r.kids.is_empty(),
+                1 => r.kids.is_empty(),
+                2 => rng.chance(1, 4),
+                _ => rng.chance(2, 3),
+            },
         };
         if want && (!is_root || o.root_len) {
             r.len = Some(gen_len(rng, o.len_kind));
